@@ -241,7 +241,9 @@ def kinds(s):
         ks = [kinds(t) for t in ts]
         out = ks[0].copy()
         for o in ks[1:]:
-            out = np.where(out == o, out, np.where((out == 0) | (o == 0), 0, -1))
+            # a product keeps a sampling dtype only if both factors agree (documented in _combine_prod);
+            # a sum of parts with different kinds has no documented meaning (-1: no oracle)
+            out = np.where(out == o, out, np.where((out == 0) | (o == 0) | (k == "chain"), 0, -1))
         return out
     if k in ("inven", "T", "scaled"):
         return kinds(s["op"])
@@ -505,7 +507,7 @@ def has_tag(s, tag):
     if not isinstance(s, dict):
         return False
     if tag == "neg-term" and s.get("k") == "sum":
-        if any(ng for _, ng in sum_effective(s)):
+        if any(_flatten_sum(s["terms"], s["neg"])[1]):
             return True
     if tag == "missing-entry" and s.get("k") == "block":
         if any(key not in s["ops"] for key in s["dom"]):
